@@ -126,7 +126,13 @@ type State struct {
 	touched map[string]bool // heaps written since entry (for frame checking)
 	defFact map[string]bool // keys of definitional-instance facts
 	guardedRefs map[string]string // map reference (key) -> mutex key it was loaded under
+	heldLocks   map[string]heldLock // mutex key -> what it guards (recorded at acquire; used when a loop re-acquires it)
 	witnessOf map[string]*Term // witnesses of the most recent call of a callee on this path: "Set.f"
+}
+
+type heldLock struct {
+	ref *Term
+	g   guardInfo
 }
 
 type critSection struct {
@@ -157,6 +163,12 @@ func (s *State) clone() *State {
 	}
 	for k, v := range s.witnessOf {
 		n.witnessOf[k] = v
+	}
+	if s.heldLocks != nil {
+		n.heldLocks = make(map[string]heldLock, len(s.heldLocks))
+		for k, v := range s.heldLocks {
+			n.heldLocks[k] = v
+		}
 	}
 	if s.guardedRefs != nil {
 		n.guardedRefs = make(map[string]string, len(s.guardedRefs))
